@@ -152,6 +152,9 @@ impl Scenario for MatchScenario {
 						FeOp::Batch(n) => format!("[{}]", (0..*n).map(|j| format!("\"r{k}.{j}\"")).collect::<Vec<_>>().join(",")),
 						FeOp::Notif => "sent".into(),
 					};
+					// batch summaries carry `#s..f..o..` after the entry list; C03 compares the entries
+					let r_full = r.clone();
+					let r = &r_full.split('#').next().unwrap_or("").to_string();
 					let expected_err = match op {
 						FeOp::Batch(n) => Some(format!("[{}]", (0..*n).map(|_| format!("E{}", 1000 + k)).collect::<Vec<_>>().join(","))),
 						_ => None,
